@@ -381,6 +381,66 @@ fn common_spaces(prop: &'static str, flags: [u32; 6], tier: Tier, other_scripts:
         }
         check_preimage(prop, &Q { tx: &tx, idx: 0, subscript: &sub, value: 5000, flag: flags[((c[0] + c[1]) % 6) as usize] }, acc, case);
     }));
+    // transaction objects whose inputs carry the non-serialised annotations (satoshis, locking script) and unlocking scripts:
+    // the preimage is a function of the arguments and the serialised contents only — an annotation that differs from the
+    // value / subscript argument must not leak into it. Objects are built through the API and, in a second variant, loaded
+    // from the library's JSON form (which keeps the annotations).
+    v.push(Space::new("annotated-inputs", 6 * 2 * 8 * 3 * 2, move |case, acc| {
+        let c = coords(case.idx, &[6, 2, 8, 3, 2]);
+        let flag = flags[c[0] as usize];
+        let idx = c[1] as usize;
+        let (ann_sat, ann_lock, ann_unlock) = (c[2] & 1 != 0, c[2] & 2 != 0, c[2] & 4 != 0);
+        let value: u64 = 50_000;
+        let ann_value = [value - 1, value + 0x1_0000_0000, 0u64][c[3] as usize];
+        let via_json = c[4] == 1;
+        let mut model = base_tx(2, 2, &[0xfffffffe, 7], other_scripts);
+        if ann_unlock {
+            model.inputs[idx].script = vec![0x02, 0xca, 0xfe, 0x51];
+        }
+        let sub = p2pkh(0x66);
+        acc.evaluations += 1;
+        acc.transitions += 3;
+        acc.traces += 1;
+        acc.nontrivial_structural += 1;
+        let input = json!({"flag": format!("0x{:02x}", flag), "input_index": idx, "annotations_on_every_input": {"satoshis": if ann_sat { Some(ann_value) } else { None }, "locking_script": if ann_lock { Some("51 (differs from the subscript)") } else { None }}, "unlocking_script_on_signed_input": ann_unlock, "value_argument": value, "loaded_from_json": via_json, "tx_hex": hx(&model.encode())});
+        let m = model.clone();
+        let sub2 = sub.clone();
+        let lib = guard(move || -> Result<Vec<u8>, String> {
+            let es = |e: bsv::BSVErrors| e.to_string();
+            let mut t = Transaction::new(m.version, m.locktime);
+            for i in &m.inputs {
+                let mut ti = bsv::TxIn::new(&i.txid_display(), i.vout, &Script::from_bytes(&i.script).map_err(es)?, Some(i.sequence));
+                if ann_sat {
+                    ti.set_satoshis(ann_value);
+                }
+                if ann_lock {
+                    ti.set_locking_script(&Script::from_bytes(&[0x51]).map_err(es)?);
+                }
+                t.add_input(&ti);
+            }
+            for o in &m.outputs {
+                t.add_output(&bsv::TxOut::new(o.value, &Script::from_bytes(&o.script).map_err(es)?));
+            }
+            if via_json {
+                t = Transaction::from_json_string(&t.to_json_string().map_err(es)?).map_err(es)?;
+            }
+            t.sighash_preimage(flag_to_sighash(flag).ok_or("flag")?, idx, &Script::from_bytes(&sub2).map_err(es)?, value).map_err(es)
+        });
+        let want = sh::preimage(&model, idx, &sub, value, flag);
+        match (lib, want) {
+            (Err(p), _) => acc.violate(format!("{}/annotated-inputs/kind=panic@{}", prop, panic_site(&p)), case.idx, case.json(input), p),
+            (Ok(Err(_)), Pre::SingleOutOfRange(_)) => acc.outcome(b"refused-single"),
+            (Ok(Err(e)), _) => acc.violate(format!("{}/annotated-inputs/kind=spurious-error", prop), case.idx, case.json(input), e),
+            (Ok(Ok(got)), Pre::Bytes(w)) | (Ok(Ok(got)), Pre::SingleOutOfRange(w)) => {
+                acc.outcome(&[0x55, (got == w) as u8]);
+                if got != w {
+                    let what = if flag & sh::FORKID != 0 { format!("field={}", forkid_field(first_diff(&got, &w), sub.len())) } else { format!("component={}", legacy_component(&got, &w)) };
+                    acc.violate(format!("{}/annotated-inputs/{}", prop, what), case.idx, case.json(input), format!("library={} specified={}", hx(&got), hx(&w)));
+                }
+            }
+            (Ok(Ok(_)), Pre::NoSuchInput) => {}
+        }
+    }));
     v.push(Space::new("subscripts", 9 * 2 * 6 * 2, move |case, acc| {
         let c = coords(case.idx, &[9, 2, 6, 2]);
         let tx = base_tx(2, 2, &[5, 0xfffffffe], other_scripts);
